@@ -566,8 +566,11 @@ class Ctx:
             "coverage": cov, "assumptions": self.assumptions, "wall_s": round(wall, 2),
             "violations": self.violations,
         }
-        os.makedirs(os.path.join(VERIF, "evidence"), exist_ok=True)
-        with open(os.path.join(VERIF, "evidence", self.pid + ".json"), "w") as f:
+        # evidence always describes a run against the tree named in it; runs against a scratch tree (seeded
+        # changes, VERIF_REPO != /repo) must not overwrite the committed evidence of /repo
+        evdir = os.environ.get("VERIF_EVIDENCE_DIR") or os.path.join(VERIF, "evidence")
+        os.makedirs(evdir, exist_ok=True)
+        with open(os.path.join(evdir, self.pid + ".json"), "w") as f:
             json.dump(ev, f, indent=1, default=str)
         shutil.rmtree(self.work, ignore_errors=True)
         print("%s %s: obligations %d/%d, cases %d (%d distinct non-trivial), violations %d, %.1fs" % (
